@@ -348,7 +348,8 @@ def code_uses(repo, chk, oid):
                 n_uses += 1
                 site = fn.site(n)
                 if isinstance(p, ast.BinOp):
-                    if fname == 'numba_unique' and isinstance(p.op, ast.Add) and isinstance(par.get(top), ast.BinOp) and False:
+                    if _sizes_or_indexes(p, par, m):
+                        # <largest code> + 1 as the size of a table indexed by the code, or a code used as a position: an order embedding, not a use of the numeric value
                         continue
                     chk.bad(oid, 'use-restriction', site, ast.unparse(p)[:100], f'arithmetic on category codes ({ast.unparse(p)[:60]}): an injective relabelling of the codes changes its outcome')
                 elif isinstance(p, ast.Compare):
@@ -369,7 +370,14 @@ def code_uses(repo, chk, oid):
                         if d in ('numpy.mean', 'numpy.median', 'numpy.diff', 'numpy.cumsum'):
                             chk.bad(oid, 'use-restriction', site, ast.unparse(p)[:100], f'{d} of category codes is arithmetic on the codes')
                         elif isinstance(par.get(p), (ast.BinOp,)) and not (fname == 'numba_unique'):
-                            chk.bad(oid, 'use-restriction', site, ast.unparse(par.get(p))[:100], 'arithmetic on an order statistic of the codes')
+                            if _sizes_or_indexes(par.get(p), par, m):
+                                continue
+                            if d in ('numpy.searchsorted', 'numpy.argsort', 'numpy.argmax', 'numpy.argmin'):
+                                # arithmetic on *positions* (e.g. the difference of two insertion points is a count): whether the counts are
+                                # taken per class in a relabelling-invariant way is not decided by this rule
+                                chk.unsure(oid, 'use-restriction', site, ast.unparse(par.get(p))[:100], 'arithmetic on positions obtained from an ordering of the codes: not classified (a difference of insertion points is a count, which does not depend on the codes; other uses do)')
+                            else:
+                                chk.bad(oid, 'use-restriction', site, ast.unparse(par.get(p))[:100], 'arithmetic on an order statistic of the codes')
                 elif isinstance(p, ast.UnaryOp) and isinstance(p.op, (ast.USub, ast.Invert)):
                     chk.bad(oid, 'use-restriction', site, ast.unparse(p)[:100], 'arithmetic on category codes')
                 elif isinstance(p, ast.AugAssign) and p.value is top:
@@ -377,6 +385,41 @@ def code_uses(repo, chk, oid):
     if not any(o.oid == oid and o.status == 'violated' for o in chk.obs):
         chk.ok(oid, 'use-restriction', m.relpath, f'{n_uses} uses of code-valued names in {len(CODE_PARAMS)} kernel functions', 'codes are touched only through ==/!=, the histogram and positional operations', inspected=n_uses)
     chk.require_count('uses of code-valued names in the kernel', n_uses, 15)
+
+
+def _sizes_or_indexes(node, par, m):
+    """the value of `node` is only used as the size of an allocation (np.zeros(<largest code> + 1) / minlength=): a table with one slot per
+    code.  An index computed by arithmetic on a code (Y[(row + code) % n]) is NOT such a use: it depends on the numeric value."""
+    cur, p = node, par.get(node)
+    for _ in range(6):
+        if p is None:
+            return False
+        if isinstance(p, ast.Call):
+            d = m.dotted(p.func) or ''
+            if d in ('numpy.zeros', 'numpy.empty', 'numpy.full', 'numpy.ones') and p.args and p.args[0] is cur:
+                return True
+            if d in ('int', 'numpy.int64', 'numpy.int32', 'numpy.intp') and cur in p.args:
+                cur, p = p, par.get(p)
+                continue
+            if any(k.value is cur and k.arg in ('minlength', 'shape', 'size') for k in p.keywords):
+                return True
+            return False
+        if isinstance(p, ast.Tuple):
+            cur, p = p, par.get(p)
+            continue
+        if isinstance(p, ast.Assign) and len(p.targets) == 1 and isinstance(p.targets[0], ast.Name):
+            # a local that is only used as a size / index
+            name = p.targets[0].id
+            fn_node = p
+            while par.get(fn_node) is not None:
+                fn_node = par.get(fn_node)
+            uses = [x for x in ast.walk(fn_node) if isinstance(x, ast.Name) and x.id == name and isinstance(x.ctx, ast.Load)]
+            return bool(uses) and all(_sizes_or_indexes(u, par, m) for u in uses)
+        if isinstance(p, ast.BinOp):
+            cur, p = p, par.get(p)
+            continue
+        return False
+    return False
 
 
 def _is_code(e, codes, m):
